@@ -101,6 +101,7 @@ type playOpt struct {
 	waitQueue bool
 	noStatus  bool
 	inputLen  int // overrides the sum of frame lengths
+	items     int // items of a flood inside one message (default: the number of messages)
 	peer      *node.Key
 }
 
@@ -118,7 +119,11 @@ func playMsgs(m *meter, msgs []wire, opt playOpt) string {
 	if opt.inputLen > 0 {
 		input = opt.inputLen
 	}
-	fp.budget = int(allocBound(input)) * 2
+	items := len(msgs)
+	if opt.items > items {
+		items = opt.items
+	}
+	fp.budget = int(allocBoundItems(input, items)) * 2
 	verdict := "ok"
 	var first uint32 = 0xffff
 	if len(msgs) > 0 {
@@ -165,6 +170,10 @@ func playMsgs(m *meter, msgs []wire, opt playOpt) string {
 	registered := network.VerifC15Registered(c.pm)
 	c.close(m)
 	E.n.Quiesce()
+	m.items = len(msgs)
+	if opt.items > m.items {
+		m.items = opt.items
+	}
 	m.end(input)
 	if c.loopPanic != nil {
 		panic(c.loopPanic) // re-raised on the case goroutine; runCase prefers the recorded async panic
